@@ -220,6 +220,14 @@ class _Transformer(ast.NodeTransformer):
         self.generic_visit(node)
         return node
 
+    def visit_BinOp(self, node):
+        # b"literal" * n : bytes.__mul__ would hand a symbolic n to C code (__index__); route it through the engine
+        self.generic_visit(node)
+        if isinstance(node.op, ast.Mult) and not (isinstance(node.left, ast.Constant) and isinstance(node.left.value, (int, float, str))) \
+                and not (isinstance(node.right, ast.Constant) and isinstance(node.right.value, (float, str))):
+            return ast.copy_location(ast.Call(func=ast.Name(id="__pyvc_bytesmul__", ctx=ast.Load()), args=[node.left, node.right], keywords=[]), node)
+        return node
+
     def visit_Dict(self, node):
         self.generic_visit(node)
         if not self.dicts or any(k is None for k in node.keys):
@@ -380,6 +388,18 @@ def make_code(func, fkey, loops=(), dicts=False):
     return nc
 
 
+def bytes_mul(lit, n):
+    """b"literal" * n; a harness may install its own byte-string model through ctx.ghost["bytes_mul"]"""
+    from .sym import is_sym
+    if not (isinstance(lit, (bytes, bytearray)) and is_sym(n)):
+        return lit * n
+    from . import core
+    hook = core.CUR.ghost.get("bytes_mul") if core.CUR is not None else None
+    if hook is None:
+        raise Unsupported("bytes literal repeated a symbolic number of times")
+    return hook(lit, n)
+
+
 def _aslist(x):
     return x if isinstance(x, list) else [x]
 
@@ -401,6 +421,7 @@ class instrumented:
             f.__globals__["__pyvc_loop__"] = __pyvc_loop__
             f.__globals__["__pyvc_dict__"] = containers.mkdict
             f.__globals__["__pyvc_join__"] = containers.bytes_join
+            f.__globals__["__pyvc_bytesmul__"] = bytes_mul
             f.__globals__["__pyvc_dictcomp__"] = containers.dictcomp
             from . import absobj
             f.__globals__["__pyvc_listcomp__"] = absobj.listcomp
